@@ -215,6 +215,17 @@ impl<Left: Executor, Right: Executor> NestedLoopJoin<Left, Right> {
             self.right_matched = vec![false; self.right_buffer.len()];
         }
 
+        // The width of the left side is needed to NULL-extend unmatched right rows even when
+        // the left input turns out to be empty (it used to be learned from the first left row).
+        if self.left_cols == 0 {
+            if let Some(right_row) = self.right_buffer.first() {
+                self.left_cols = self
+                    .output_schema
+                    .num_columns()
+                    .saturating_sub(right_row.len());
+            }
+        }
+
         self.right_buffered = true;
         Ok(())
     }
